@@ -1,9 +1,113 @@
-(* C09 - Epoch: nothing becomes reclaimable while a reader that may see it is in a region. *)
+(* C09 - Epoch: nothing becomes reclaimable while a reader that may see it is in a region.
+   Only statements; proofs are `exact <lemma of EP/EPProofs.v>`.
+
+   Reach tl ext owners anext0 afree0 vsize0 progs s = "s is reachable from the initial state of the client
+   programs `progs` under SOME schedule" (EP/EPModel.v: one step = one atomic operation of epoch.h or of the
+   client's pointer cell / freed flag).  Every theorem is therefore quantified over all schedules, all client
+   programs, any number of threads and accessor handles, thread-local (tl = true) and Accessor style, any
+   allocator history (anext0, afree0, vsize0 subject to wf_init), nested locks (hdepth), Accessor objects handed
+   between threads (OGive), accessors created/released while a scan is in progress.
+   no_overflow s = fewer than 2^64-1 ticks so far (the global version has not reached the IDLE sentinel).
+
+   What is proved (sequentially consistent interleavings):
+     c09_safety_sc               no reader ever dereferences a reclaimed object (the observable of the property)
+     c09_held_not_freed          an object read inside a still open region is not in the freed set
+     c09_reader_holds_mark       the property text: the reader's slot is published with a version below the tick of
+                                 every unlink of what it holds, every running scan either already has a minimum below
+                                 that tick or still has the reader's slot ahead of it inside its bound, and no
+                                 finished scan allows reclaiming it
+     c09_open_region_published   nesting + move: whenever the client's depth is >= 1 (inner unlocks included, whoever
+                                 owns the Accessor now) and lock() is not in its entry window, the slot is published
+     c09_unlocked_slot_idle      a slot with lock_times = 0 never holds the mark back
+     c09_released_never_blocks_partial   with no release-while-locked so far, a slot whose accessor is unlocked,
+                                 released or never bound is idle (does not hold the mark back)
+     c09_release_while_locked_refuted    the unrestricted statement 'a released Accessor never holds the mark back' is
+                                 FALSE of the code as it is: witness C0,L0,X0 (replayed on the implementation by
+                                 checks/c09.py family rwl -> KNOWN_FINDINGS release-while-locked-holds-mark)
+     c09_slots_exclusive         model sanity: live accessors never share a slot, an operation in progress belongs to
+                                 the handle's owner
+     c09_memory_order_obligations, c09_tick_*, c09_idle_is_max    regenerated orders / constants
+   Store-buffer half of the quantifier: c09_tso_* below are about an explicit TSO machine for the one-slot
+   skeleton only (see EP/EPTso.v); the composition with the full algorithm is not mechanised (partial). *)
 From Coq Require Import ZArith List Bool.
-Require Import Verif.Gen.Gen_epoch Verif.Conc.Machine Verif.EP.EPModel Verif.EP.EPProofs.
+Require Import Verif.Base.Atomics Verif.Gen.Gen_epoch Verif.Conc.Machine Verif.EP.EPModel Verif.EP.EPBase Verif.EP.EPInvB
+               Verif.EP.EPProofs.
 Import ListNotations.
 Local Open Scope Z_scope.
 
+Theorem c09_safety_sc : forall tlm e owners anext0 afree0 vsize0 progs s, wf_init anext0 afree0 ->
+  Reach tlm e owners anext0 afree0 vsize0 progs s -> no_overflow s -> uaf s = false.
+Proof. exact ep_safety_sc. Qed.
+Print Assumptions c09_safety_sc.
+
+Theorem c09_held_not_freed : forall tlm e owners anext0 afree0 vsize0 progs s h o, wf_init anext0 afree0 ->
+  Reach tlm e owners anext0 afree0 vsize0 progs s -> no_overflow s ->
+  hheld (get_h s h) = Some o -> ~ In o (freed s).
+Proof. exact ep_held_not_freed. Qed.
+Print Assumptions c09_held_not_freed.
+
+Theorem c09_reader_holds_mark : forall tlm e owners anext0 afree0 vsize0 progs s h o i, wf_init anext0 afree0 ->
+  Reach tlm e owners anext0 afree0 vsize0 progs s -> no_overflow s ->
+  hheld (get_h s h) = Some o -> hidx (get_h s h) = Some i ->
+  ver (get_slot s i) <> SLOT_IDLE /\ ver (get_slot s i) <= gver s /\
+  (forall t th T, thr s t th -> In (o, T) (retired th) -> ver (get_slot s i) < T) /\
+  (forall t th n k mn T, thr s t th -> tpc th = CScan n k mn -> In (o, T) (retired th) -> mn < T \/ (k <= i < n)%nat) /\
+  (forall t th m todo all T, thr s t th -> tpc th = CFree m todo all -> ~ In (o, T) todo).
+Proof. exact ep_reader_holds_mark. Qed.
+Print Assumptions c09_reader_holds_mark.
+
+Theorem c09_open_region_published : forall tlm e owners anext0 afree0 vsize0 progs s h i, wf_init anext0 afree0 ->
+  Reach tlm e owners anext0 afree0 vsize0 progs s -> no_overflow s ->
+  hidx (get_h s h) = Some i -> 1 <= hdepth (get_h s h) -> ~ entering s i ->
+  ver (get_slot s i) <> SLOT_IDLE /\ ver (get_slot s i) <= gver s.
+Proof. exact ep_open_region_published. Qed.
+Print Assumptions c09_open_region_published.
+
+Theorem c09_unlocked_slot_idle : forall tlm e owners anext0 afree0 vsize0 progs s i, wf_init anext0 afree0 ->
+  Reach tlm e owners anext0 afree0 vsize0 progs s -> no_overflow s ->
+  lt (get_slot s i) = 0 -> ver (get_slot s i) = SLOT_IDLE.
+Proof. exact ep_unlocked_slot_idle. Qed.
+Print Assumptions c09_unlocked_slot_idle.
+
+Theorem c09_released_never_blocks_partial : forall tlm e owners anext0 afree0 vsize0 progs s i, wf_init anext0 afree0 ->
+  Reach tlm e owners anext0 afree0 vsize0 progs s -> no_overflow s -> rwl s = false ->
+  (forall h, hidx (get_h s h) = Some i -> hdepth (get_h s h) = 0) ->
+  ver (get_slot s i) = SLOT_IDLE.
+Proof. exact ep_released_never_blocks_partial. Qed.
+Print Assumptions c09_released_never_blocks_partial.
+
+Theorem c09_release_while_locked_refuted :
+  exists s, Reach false 0 [0%nat] 0 [] 0 [[OCreate 0; OLock 0; ORelease 0]] s /\ all_done s = true /\
+            (forall h, hidx (get_h s h) = None) /\ ver (get_slot s 0) <> SLOT_IDLE /\ rwl s = true.
+Proof. exact ep_release_while_locked_refuted. Qed.
+Print Assumptions c09_release_while_locked_refuted.
+
+Theorem c09_slots_exclusive : forall tlm e owners anext0 afree0 vsize0 progs s, wf_init anext0 afree0 ->
+  Reach tlm e owners anext0 afree0 vsize0 progs s ->
+  (forall h h' i, hidx (get_h s h) = Some i -> hidx (get_h s h') = Some i -> h = h') /\
+  (forall h i, hidx (get_h s h) = Some i -> (i < anext s)%nat /\ (i < vsize s)%nat /\ ~ In i (afree s)) /\
+  (forall t th h i, thr s t th -> pc_bound (tpc th) = Some (h, i) -> howner (get_h s h) = t /\ hidx (get_h s h) = Some i).
+Proof. exact ep_slots_exclusive. Qed.
+Print Assumptions c09_slots_exclusive.
+
+(* the memory orders the argument relies on are the ones in the source (regenerated site tables): entry = store THEN
+   seq_cst fence, tick = seq_cst RMW / relaxed RMW + seq_cst fence, scan = acquire loads, exit = release store *)
 Theorem c09_memory_order_obligations : orders_ok = true.
 Proof. exact ep_orders_ok. Qed.
 Print Assumptions c09_memory_order_obligations.
+
+(* tick() returns the incremented value, the idle sentinel is the largest 64-bit value and is what the scan starts from *)
+Theorem c09_tick_returns_new_version : tick_ret = tick_inc /\ tick_inc = 1.
+Proof. exact ep_tick_spec. Qed.
+Theorem c09_idle_is_max : SLOT_IDLE = 2 ^ 64 - 1 /\ lwm_init = SLOT_IDLE /\ unlock_value = SLOT_IDLE.
+Proof. exact ep_idle_spec. Qed.
+
+(* non-vacuity: a well-formed initial allocator; a reachable state with a reader holding object 0 inside its region
+   while a collector that retired (0, tick 1) is scanning *)
+Example c09_wf_init_example : wf_init 0 [].
+Proof. exact ep_wf_init_example. Qed.
+Example c09_reach_example :
+  exists s, Reach false 0 [0%nat] 0 [] 0 [[OCreate 0; OLock 0; ORead 0]; [OUnlink; OCollect]] s /\
+            hheld (get_h s 0) = Some 0%nat /\ hidx (get_h s 0) = Some 0%nat /\ no_overflow s /\
+            exists th, thr s 1 th /\ tpc th = CScan 1 0 SLOT_IDLE /\ In (0%nat, 1) (retired th).
+Proof. exact ep_reach_example. Qed.
